@@ -30,6 +30,8 @@ def mutations(frames, rng):
                     yield "name-ref-beyond-size", mut(lambda r, f=f: r[kind][f].__setitem__("name_id", N + 1))
                     if P:
                         yield "prefix-ref-beyond-size", mut(lambda r, f=f: r[kind][f].__setitem__("prefix_id", P + 1))
+                    else:
+                        yield "prefix-ref-with-disabled-table", mut(lambda r, f=f: r[kind][f].__setitem__("prefix_id", 1 + rng.randrange(7)))
                 if f.endswith("_literal"):
                     if "datatype" in m[f]:
                         yield "datatype-ref-beyond-size", mut(lambda r, f=f: r[kind][f].__setitem__("datatype", D + 1))
@@ -101,6 +103,15 @@ def mutations(frames, rng):
             yield "graph-start-in-quads-stream", gstart()
             break
     if phys == 3:
+        # triple after a graph_end (outside any graph, but a graph was open before)
+        for fi, ri, row in allrows:
+            if wire.which(row, "row") == "graph_end":
+                trip = next((r for _, _, r in allrows if wire.which(r, "row") == "triple"), None)
+                if trip is not None:
+                    fr = copy.deepcopy(frames)
+                    fr[fi]["rows"].insert(ri + 1, copy.deepcopy(trip))
+                    yield "triple-after-graph-end", fr
+                break
         # triple outside any graph: drop the first graph_start
         for fi, ri, row in allrows:
             if wire.which(row, "row") == "graph_start":
@@ -122,15 +133,18 @@ def main() -> None:
     a = parse_args()
     net = Net("C16", a)
     from pyjelly.integrations.generic.parse import parse_jelly_flat
+    from pyjelly.integrations.rdflib.parse import parse_jelly_flat as rdflib_flat
     rng = net.rng
     for it in range(25 if net.quick else 400):
         if not net.time_left():
             break
         phys = rng.choice([1, 2, 3])
-        stmts = gen_statements(rng, 1 if phys == 1 else 2, rng.randrange(2, 6))
+        has_quoted = rng.random() < 0.5
+        stmts = gen_statements(rng, 1 if phys == 1 else 2, rng.randrange(2, 6), quoted_ok=has_quoted)
+        has_quoted = any(t[0] == "quoted" for s in stmts for t in s)
         occs = [occ(s) for s in stmts]
         k = {t: max(o[t] for o in occs) for t in "npd"}
-        sizes = (max(8, k["n"]) + 1, max(1, k["p"]) + 1, max(1, k["d"]))
+        sizes = (max(8, k["n"]) + 1, rng.choice([0, max(1, k["p"]) + 1]), max(1, k["d"]))
         enc = RefEncoder(rng, phys, sizes, version=1, redundancy=0.0, early=0.0)
         if phys == 3:
             cur = None
@@ -157,6 +171,11 @@ def main() -> None:
             kind, got = guarded(lambda: [event_from_generic(x) for x in parse_jelly_flat(io.BytesIO(data))])
             if kind == "ok":
                 net.fail(cls, f"spec-invalid stream ({reason}) was accepted and answered with data", {"class": cls, "bytes_hex": data.hex(), "spec_reason": reason}, got, "an exception")
+            if not has_quoted:
+                kind, got = guarded(lambda: list(rdflib_flat(io.BytesIO(data))))
+                if kind == "ok":
+                    net.fail(cls + "-rdflib", f"spec-invalid stream ({reason}) was accepted by the rdflib parser and answered with data", {"class": cls, "bytes_hex": data.hex(), "spec_reason": reason}, [tuple(map(str, x)) for x in got], "an exception")
     net.finish("bounded", "valid streams from the reference encoder (2..5 statements, 3 physical types) x every catalogued violation class x every applicable row",
                "each case = (violation class, mutated byte string) confirmed invalid by the reference decoder; distinct by bytes")
-main()
+if __name__ == "__main__":
+    main()
